@@ -265,6 +265,8 @@ func VerifC18Builder() {
 		case 2:
 			return []byte{'{', '}', sym()}
 		case 3:
+			return []byte{sym(), '}', '{', sym(), '}'} // a closing brace left of the first tag
+		case 4:
 			return []byte{'{', sym(), '}', '{', sym(), '}'}
 		default:
 			return []byte{sym(), '{', sym(), sym()}
